@@ -185,6 +185,17 @@ CONSTANTS
 """
 
 
+def _nonull(x):
+    """TLC's Json module cannot deserialise null: absent values travel as empty strings (specs guard them by `exc`)"""
+    if x is None:
+        return ""
+    if isinstance(x, dict):
+        return {k: _nonull(v) for k, v in x.items()}
+    if isinstance(x, (list, tuple)):
+        return [_nonull(v) for v in x]
+    return x
+
+
 def validate_traces(module, claim, traces, *, shard=400, timeout=1800, jobs=None, extra_constants="", batch_extra=None):
     """Ship traces (list of {"id":..., "events":[...]}) to TLC in shards; return {id: verdict-record}.
 
@@ -200,7 +211,7 @@ def validate_traces(module, claim, traces, *, shard=400, timeout=1800, jobs=None
         def run_batch(name, batch, tmo):
             path = os.path.join(work, "%s.json" % name)
             with open(path, "w") as f:
-                json.dump(dict(batch_extra or {}, traces=batch), f)
+                json.dump(_nonull(dict(batch_extra or {}, traces=batch)), f)
             try:
                 r = run_tlc(module, TRACE_CFG % claim + extra_constants, workers=1, timeout=tmo,
                             extra_env={"TRACE_FILE": path})
